@@ -63,10 +63,13 @@ def _job(args):
 
 
 def run_histories(ctx, n_hist, n_ops, oracle, gen_kw=None, policy=busdiff.SESSION, limits=None, extra="",
-                  findings=None, seed_salt=0, label=""):
+                  findings=None, seed_salt=0, label="", scripts=None):
     """Runs n_hist generated histories. `oracle(trace) -> list of (cls, text)`: violations of the
     property visible in the implementation's own trace (cls = class name for known findings or None)."""
     jobs = [(ctx.seed * 1000003 + seed_salt * 7919 + i, n_ops, gen_kw or {}, policy.rules, limits, extra) for i in range(n_hist)]
+    if scripts is not None:
+        jobs = [(i, len(sc), {"script": sc}, policy.rules, limits, extra) for i, sc in enumerate(scripts)]
+        n_hist = len(jobs)
     workers = min(14, max(1, (os.cpu_count() or 2) - 2))
     with ProcessPoolExecutor(workers) as ex:
         results = list(ex.map(_job, jobs, chunksize=1))
